@@ -238,3 +238,47 @@ class PdoReadFromOd(Contract):
         return And([truth_val(x) for x in c])
 
     ensures = {"dcf-value-then-default": lambda s: PdoReadFromOd.ok(s)}
+
+
+PRESENT = {"1-4": (0, 1, 2, 3), "only-1": (0,), "gap-1-3": (0, 2), "only-2": (1,), "1-5": (0, 1, 2, 3, 4), "1-and-512": (0, 511),
+           "none": ()}
+
+
+@contract
+class PdoMapsInit(Contract):
+    """PdoMaps: one map per PDO communication record present in the dictionary — whatever their numbering (gaps, not
+    starting at 1, up to number 512) — keyed by PDO number; the first four get the pre-defined COB-ID base + 0x100*(n-1) + node id"""
+    target = "canopen.pdo.base:PdoMaps.__init__"
+    functions = ("canopen.pdo.base:PdoMap.__init__",)
+    props = ("C09",)
+    cases = {"%s/%s" % (k, d): (v, d) for k, v in PRESENT.items() for d in ("rx", "tx")}
+
+    def setup(self, w, case):
+        nums, direction = case
+        com, mp, base = (0x1400, 0x1600, 0x200) if direction == "rx" else (0x1800, 0x1A00, 0x180)
+        nid = w.int("node_id", 1, 127)
+        node = w.obj("env.pdodev:NodeWithOd", id=nid, object_dictionary=w.obj("env.pdodev:SetOd", present=frozenset(com + n for n in nums)),
+                     sdo=w.obj("env.pdodev:SdoOfNode"))
+        pdo_node = w.obj("env.pdodev:PdoNodeOf", node=node, network=None)
+        w.pre.update(nums=nums, base=base, nid=nid, com=com, mp=mp)
+        return Call(("new", "canopen.pdo.base:PdoMaps"), [com, mp, pdo_node, base])
+
+    @staticmethod
+    def ok(s):
+        p = s.pre
+        if not s.returned:
+            return False
+        maps = s.ret.fields["maps"]
+        if sorted(maps.d.keys()) != [n + 1 for n in p["nums"]]:
+            return False
+        c = []
+        for n in p["nums"]:
+            m = maps.d[n + 1].fields
+            c.append(m["com_record"] == ("record", p["com"] + n) and m["map_array"] == ("record", p["mp"] + n))
+            if n < 4:
+                c.append(S.eq(m["predefined_cob_id"], binop("+", p["base"] + n * 0x100, p["nid"])))
+            else:
+                c.append(m["predefined_cob_id"] is None)
+        return And([truth_val(x) for x in c])
+
+    ensures = {"one-map-per-declared-pdo": lambda s: PdoMapsInit.ok(s)}
